@@ -4,6 +4,7 @@ import (
 	"net/http"
 	"net/url"
 	"regexp"
+	"strings"
 
 	middlewareapi "github.com/oauth2-proxy/oauth2-proxy/v7/pkg/apis/middleware"
 )
@@ -107,5 +108,41 @@ func vh_C06_rel() {
 	if vSafePath.MatchString(s) && !regexp.MustCompile(`//|/\.\.?/`).MatchString(s) {
 		verifAssert("C06.rel.plain-path-accepted", ok)
 		verifReach("plain")
+	}
+}
+
+var vPlainPath = regexp.MustCompile(`^(/[A-Za-z0-9_~$&+,;=:@-][A-Za-z0-9._~$&+,;=:@-]*)+/?$`)
+var vPlainQuery = regexp.MustCompile(`^[A-Za-z0-9._~$&+,;=:@-]*$`)
+
+// the converse: a plain same-site path and query requested before login is what the director
+// hands back, byte for byte -- only the proxy's own endpoints (prefix + "/") are replaced by "/"
+// verif: unwind=6 strlen=14
+func vh_C06_chain_converse() {
+	v := NewValidator([]string{".example.com"})
+	prefix := "/oauth2"
+	if ndBool("prefix-with-trailing-slash") {
+		prefix = "/oauth2/"
+	}
+	d := NewAppDirector(AppDirectorOpts{ProxyPrefix: prefix, Validator: v})
+	path := ndString("path")
+	query := ndString("query")
+	verifAssume(vPlainPath.MatchString(path))
+	verifAssume(vPlainQuery.MatchString(query))
+	req := vChainReq("r", false, false, "", "", "app.example.com", path, query)
+	got, err := d.GetRedirect(req)
+	verifAssert("C06.chain.no-error", err == nil)
+	want := path
+	if query != "" {
+		want = path + "?" + query
+	}
+	if strings.HasPrefix(path, "/oauth2/") {
+		verifReach("proxy-endpoint")
+		verifAssert("C06.converse.proxy-endpoints-go-to-root", got == "/")
+	} else {
+		verifReach("application-path")
+		verifAssert("C06.converse.lands-where-requested", got == want)
+		if strings.HasPrefix(path, "/oauth2") {
+			verifReach("prefix-lookalike") // /oauth2-docs, /oauth2.html, /oauth2 itself
+		}
 	}
 }
